@@ -7,6 +7,7 @@ import Rare.Proofs.C11CaseC13
 import Rare.Proofs.C11R4
 import Rare.Proofs.C11Log
 import Rare.Proofs.C17Atoi
+import Rare.Proofs.C11Arity
 /-!
 # C11 — scalar helper functions follow their documented semantics
 
@@ -989,6 +990,41 @@ theorem gen_select_chars : ∀ n : Nat, n < 256 →
     `a > b`, `divi` / `modi` reject `b == 0` …). -/
 theorem gen_dispatch :
     (c11Dispatch.all fun p => dispatchLookup Gen.C11.dispatch p.1 == some p.2) = true := by decide +kernel
+
+/-! ## admissible arities (round 4c): the argument-count guard of every helper, for argument lists of every length
+
+The property quantifies over "all admissible arities".  Which arities are admissible is decided by the guard at the
+head of each builder (`len(args) != 3`, `!isArgCountBetween(args, 1, 4)`, `len(args) < 2` …).  `c11Builders` lists, for
+all 63 helper names of this property, the builder the driver's registry binds to the name and the interval `[lo, hi]`
+(`hi = none`: unbounded). -/
+
+/-- **Every helper rejects exactly the inadmissible argument counts**, for argument lists of EVERY length: the builder
+    answers with the `<ARGN>` stage and the `argcount` compile error IFF the number of arguments is outside the
+    helper's interval (so inside the interval the answer is never the argument-count error, outside it nothing is
+    evaluated and nothing panics); the builder is the one registered under the name; and a rejected call evaluates to
+    `<ARGN>` in every context. -/
+theorem arity_guards (isPrint : Nat → Bool) :
+    (∀ e ∈ c11Builders isPrint, ∀ as : List Stage,
+      argRejected (e.2.1 as) = !inArity e.2.2.1 e.2.2.2 as.length) ∧
+    (∀ e ∈ c11Builders isPrint, e.1 = "format" ∨ lookupTable c11Table e.1 = some e.2.1) ∧
+    (∀ (b : Builder) (as : List Arg) (c : Ctx), argRejected (b (as.map Arg.stage)) = true →
+      callHelper b as c = .ok ErrorArgCount) :=
+  ⟨c11Builders_arity isPrint, c11Builders_registered isPrint, argRejected_call⟩
+
+/-- **The intervals are the guards of /repo** (regenerated on every run: the translator finds the guard of each builder
+    bound in `StandardFunctions` – through helper-makers such as `arithmaticHelperi` → `arithmaticHelperiChecked` and
+    `kfPathManip` – and evaluates its condition, `isArgCountBetween` through its own body, for 0 … 12 arguments). -/
+theorem gen_arity :
+    ((c11Builders fun _ => true).all fun e => Gen.C11.arity.lookup e.1 == some (e.2.2.1, e.2.2.2)) = true ∧
+    (c11Builders fun _ => true).length = 63 := by decide +kernel
+
+/-- `{substr a 1}`, `{clamp 5}` and `{if}` are `<ARGN>`; `{percent 1 2 3 4}` is not an arity error. -/
+example : (∀ c, callHelper Strings.kfSubstr [.group 0, .const (ascii "1")] c = .ok ErrorArgCount) ∧
+    (∀ c, callHelper Arith.kfClamp [.const (ascii "5")] c = .ok ErrorArgCount) ∧
+    (∀ c, callHelper Logic.kfIf [] c = .ok ErrorArgCount) ∧
+    argRejected (Float.kfPercent ([Arg.const (ascii "1"), .const (ascii "2"), .const (ascii "3"), .const (ascii "4")].map Arg.stage)) = false :=
+  ⟨fun c => argRejected_call _ _ c (by decide +kernel), fun c => argRejected_call _ _ c (by decide +kernel),
+   fun c => argRejected_call _ _ c (by decide +kernel), by decide +kernel⟩
 
 /-! ## upper / lower: `strings.ToUpper` / `strings.ToLower` for every byte string (round 4)
 
